@@ -10,7 +10,12 @@ import (
 // Runner interprets protocol lines on the real implementation.
 type Runner struct {
 	stores  map[int]*storeEntry
+	maps    map[int]*mapEntry
+	sks     map[int]*skEntry
 	addMode int
+	// per-history switches set by `#frame` (observe before/after every refused call)
+	checkFrame bool
+	quiet      bool
 	// direct property oracle
 	fails    []string
 	curHist  int
@@ -20,12 +25,15 @@ type Runner struct {
 }
 
 func NewRunner() *Runner {
-	return &Runner{stores: map[int]*storeEntry{}, stats: map[string]int{}}
+	return &Runner{stores: map[int]*storeEntry{}, maps: map[int]*mapEntry{}, sks: map[int]*skEntry{}, stats: map[string]int{}}
 }
 
 func (r *Runner) reset() {
 	r.stores = map[int]*storeEntry{}
+	r.maps = map[int]*mapEntry{}
+	r.sks = map[int]*skEntry{}
 	r.addMode = 0
+	r.checkFrame = false
 }
 
 func (r *Runner) oracleFail(kind, detail string) {
@@ -43,12 +51,17 @@ func (r *Runner) Exec(line string) (out string, emit bool) {
 			r.curHist++
 			r.reset()
 		}
+		if f[0] == "#frame" {
+			r.checkFrame = true
+		}
 		return "", false
 	}
 	r.stats["op:"+f[0]]++
 	switch f[0] {
 	case "S", "sadd", "smerge", "scopy", "sclear", "srew", "sobs", "skr":
 		return r.execStore(f[0], f[1:]), true
+	case "M", "mv", "ml", "mi", "K", "add", "q", "qs", "obs", "merge", "copy", "clear", "rew", "encchk", "dec", "decm", "same":
+		return r.execSketch(f[0], f[1:]), true
 	case "codec":
 		return r.execCodec(f[1:]), true
 	}
